@@ -187,6 +187,34 @@ pub fn arith_inputs() -> Vec<String> {
     v
 }
 
+/// statements that fail (unknown table / column) and whose error text echoes a name of EVERY length 1..=300 made of
+/// 1-, 2-, 3- or 4-byte letters after 0..=3 ASCII characters (so that any byte offset of the text falls inside a
+/// multi-byte character for some input)
+pub fn long_name_inputs() -> Vec<String> {
+    let mut v = vec![];
+    for letter in ["q", "я", "好", "𐐷"] {
+        for pre in ["", "a", "ab", "abc"] {
+            for n in 1..=300usize {
+                let name = format!("{pre}{}", letter.repeat(n));
+                match n % 3 {
+                    0 => v.push(format!("SELECT * FROM {name}")),
+                    1 => v.push(format!("SELECT {name} FROM t")),
+                    _ => v.push(format!("INSERT INTO {name} VALUES ( 1 )")),
+                }
+            }
+        }
+    }
+    // the same inside a string literal that the error echoes (type mismatch) and in an over-long token
+    for letter in ["я", "好"] {
+        for n in [100usize, 127, 128, 129, 255, 256, 257, 1000] {
+            v.push(format!("SELECT k FROM t WHERE k = '{}'", letter.repeat(n)));
+            v.push(format!("UPDATE t SET k = '{}'", letter.repeat(n)));
+            v.push(format!("SELECT k FROM t WHERE {}", letter.repeat(n)));
+        }
+    }
+    v
+}
+
 pub fn group_size(group: &str, thorough: bool) -> u64 {
     let s = SYMBOLS.len() as u64;
     let t = TOKENS.len() as u64;
@@ -203,6 +231,7 @@ pub fn group_size(group: &str, thorough: bool) -> u64 {
         "mutations" => mutation_inputs().len() as u64,
         "nesting" => nesting_inputs().len() as u64,
         "typed-arith" => arith_inputs().len() as u64,
+        "long-names" => long_name_inputs().len() as u64,
         "typed" => typed_statements().len() as u64 * 3,
         "typed-session" => typed_statements().len() as u64 * 3,
         _ => 0,
@@ -274,6 +303,7 @@ pub fn input_of(group: &str, idx: u64) -> String {
         "mutations" => mutation_inputs().get(idx as usize).cloned().unwrap_or_default(),
         "nesting" => nesting_inputs().get(idx as usize).cloned().unwrap_or_default(),
         "typed-arith" => arith_inputs().get(idx as usize).cloned().unwrap_or_default(),
+        "long-names" => long_name_inputs().get(idx as usize).cloned().unwrap_or_default(),
         _ => String::new(),
     }
 }
